@@ -435,7 +435,7 @@ func c02R4(p *core.Program, r *core.Report, pl *pipeline) {
 			}
 			construct := "error of " + shortName(name) + " is handled"
 			exc := func() (string, bool) {
-				if why, ok := writeCannotFail(info, c, name); ok {
+				if why, ok := writeCannotFail(info, c, name, f.Root().Body); ok {
 					return why, true
 				}
 				// an io.Writer parameter that is an in-memory buffer at every call site
@@ -1080,14 +1080,33 @@ func samePointSet(a, b []cfgx.Point) bool {
 
 // writeCannotFail: a write whose destination is statically an in-memory buffer
 // (*bytes.Buffer, *strings.Builder) always returns a nil error.
-func writeCannotFail(info *types.Info, c *ast.CallExpr, name string) (string, bool) {
-	inMem := func(e ast.Expr) bool {
-		t := info.TypeOf(e)
+func writeCannotFail(info *types.Info, c *ast.CallExpr, name string, body ...ast.Node) (string, bool) {
+	isMem := func(t types.Type) bool {
 		if t == nil {
 			return false
 		}
 		s := t.String()
 		return s == "*bytes.Buffer" || s == "*strings.Builder" || s == "bytes.Buffer" || s == "strings.Builder"
+	}
+	inMem := func(e ast.Expr) bool {
+		if isMem(info.TypeOf(e)) {
+			return true
+		}
+		// an io.Writer local that only ever holds an in-memory buffer (e.g. the bound parameter of an inlined helper), or &buf
+		for _, b := range body {
+			if r, _ := core.Resolve(info, b, e); r != nil && r != e {
+				if isMem(info.TypeOf(r)) {
+					return true
+				}
+				if u, ok := ast.Unparen(r).(*ast.UnaryExpr); ok && u.Op == token.AND && isMem(info.TypeOf(u.X)) {
+					return true
+				}
+			}
+		}
+		if u, ok := ast.Unparen(e).(*ast.UnaryExpr); ok && u.Op == token.AND && isMem(info.TypeOf(u.X)) {
+			return true
+		}
+		return false
 	}
 	switch {
 	case strings.HasPrefix(name, "(*bytes.Buffer).Write") || strings.HasPrefix(name, "(*strings.Builder).Write"):
